@@ -354,3 +354,42 @@ func genOtherClientKeys(r *rand.Rand, S []ksEntry) []ksEntry {
 	}
 	return out
 }
+
+// genKeySetExcluding draws a key-set shape none of whose keys is a key of the excluded sets.
+func genKeySetExcluding(r *rand.Rand, maxN int, pref []string, exclude ...[]ksEntry) []ksEntry {
+	S := genKeySet(r, maxN, false, pref)
+	taken := func(pk poolKey, upto int) bool {
+		for _, ex := range exclude {
+			for _, e := range ex {
+				if samePub(e.K.Public(), pk.k.Public()) {
+					return true
+				}
+			}
+		}
+		return false
+	}
+	for i := range S {
+		if !taken(poolOf(S[i].K), i) {
+			continue
+		}
+		fam := poolOf(S[i].K).fam
+		var same, any []poolKey
+		for _, pk := range trustPool {
+			if taken(pk, i) {
+				continue
+			}
+			any = append(any, pk)
+			if pk.fam == fam {
+				same = append(same, pk)
+			}
+		}
+		switch {
+		case len(same) > 0:
+			S[i].K = same[r.IntN(len(same))].k
+		case len(any) > 0:
+			S[i].K = any[r.IntN(len(any))].k
+		}
+		S[i].Alg = ""
+	}
+	return S
+}
